@@ -27,7 +27,7 @@ fn main() {
     main_for(PropDef {
         id: "C16",
         level: "exploration",
-        rule: "seq (<=30 ops, <=3 open workspaces, auto-merge on/off, max_txs 1000/5/2, node key in the registry): non-trivial = a successful non-empty commit of a workspace whose written keys intersect the keys committed by another workspace after this one was begun. tamper (chain of 1-5 commits, one rewrite of a stored record: header field / transaction list / one bit / removal / swap / copy / forged block): non-trivial = the rewritten block is not the tip. conc (2-4 threads x 1-2 workspaces, shared keys k0-k2 and private keys, schedule of <=40 choices): non-trivial = two commits were past their pre-image point at the same time before either had appended (from the scheduler trace). replica (1-6 blocks on two state machines): non-trivial = a later block touches a key written by an earlier block. distinct = distinct generated case (hash of its JSON).",
+        rule: "seq (<=30 ops, <=3 open workspaces, auto-merge on/off, max_txs 1000/5/2, node key in the registry): non-trivial = a successful non-empty commit of a workspace whose written keys intersect the keys committed by another workspace after this one was begun. tamper (chain of 1-5 commits, one rewrite of a stored record: header field / transaction list / one bit / removal / swap / copy / forged block): non-trivial = the rewritten block is not the tip. conc (2-4 threads x 1-2 workspaces, shared keys k0-k2 and private keys, schedule of <=40 choices): non-trivial = two commits were past their pre-image point at the same time before either had appended (from the scheduler trace). samews (2-3 real threads commit one and the same workspace at the same instant, 400 rounds per case on one chain, auto-merge off): non-trivial = every case that completed its rounds. replica (1-6 blocks on two state machines): non-trivial = a later block touches a key written by an earlier block. distinct = distinct generated case (hash of its JSON).",
         assumptions: vec![
             "generated transactions use the key alphabet k* / emb:k* / node:n* / edge:n* / table:t*; keys of the chain's own bookkeeping (chain:*, node:<id>, edge:<id>, _graph_idx:*) and _cache:* are never written by a generated transaction",
             "auto-merge runs with a one-hour merge window so that candidate selection does not depend on the wall clock; the oracle accepts any order of merged workspaces inside a block and decides 'merged' from the workspace state",
@@ -42,6 +42,7 @@ fn main() {
             PropPart::new("tamper", 12_000, 600_000, tamper::strategy, tamper::check).boxed(),
             PropPart::new("conc", 3_000, 80_000, conc::strategy, conc::check).boxed(),
             PropPart::new("replica", 3_000, 150_000, replica::strategy, replica::check).boxed(),
+            PropPart::new("samews", 32, 256, conc::samews_strategy, conc::samews_check).boxed(),
         ],
         children: vec![],
     });
